@@ -12,6 +12,7 @@ import (
 	"os"
 	"path/filepath"
 	"reflect"
+	"regexp"
 	"runtime"
 	"sort"
 	"strconv"
@@ -494,6 +495,15 @@ func TestC04(t *testing.T) {
 		}
 		return b.Bytes()
 	}
+	// the same chain twice, as the two members of one list (with and without ids): list decoding compares a member with the earlier
+	// ones, and a comparison that looks at a nested property more than once pays 2^depth for two equal chains
+	chainTwins := func(c chainCell, depth int, ids bool) []byte {
+		one := chainDoc(c, depth)
+		if !ids {
+			one = regexp.MustCompile(`"id":"https://example.com/n/\d+",`).ReplaceAll(one, nil)
+		}
+		return []byte(`{"id":"https://example.com/outer","type":"Note","tag":[` + string(one) + `,` + string(one) + `]}`)
+	}
 	nestEntries := []string{"UnmarshalJSON", "(*Object).UnmarshalJSON", "(*Activity).UnmarshalJSON", "(*OrderedCollection).UnmarshalJSON", "(*NaturalLanguageValues).UnmarshalJSON", "(*IRIs).UnmarshalJSON",
 		"(*ItemCollection).UnmarshalJSON", "JSONLoadItem", "JSONGetItems", "GobDecode", "(*Activity).GobDecode"}
 	entryByName := map[string]c04Entry{}
@@ -612,6 +622,17 @@ func TestC04(t *testing.T) {
 			if oc == "hang" {
 				hangs++
 				return ds, "RESTART after a hang: " + info
+			}
+			for _, ids := range []bool{true, false} {
+				d2, oc2 := c04Call(entryByName["UnmarshalJSON"], chainTwins(c, 28, ids), false)
+				for _, x := range d2 {
+					x.Key += " chain-twins:" + c.typ + "." + c.term
+					ds = append(ds, x)
+				}
+				if oc2 == "hang" {
+					hangs++
+					return ds, "RESTART after a hang: " + info
+				}
 			}
 			return ds, info
 		})
